@@ -228,10 +228,19 @@ class StrLang:
         defaults = dict(zip(reversed([a.arg for a in node.args.args]), reversed(node.args.defaults)))
         defaults.update({a.arg: d for a, d in zip(node.args.kwonlyargs, node.args.kw_defaults) if d is not None})
         posviews = {}
+        bools = {}
         for pname, val in list(bound.items()):
             if isinstance(val, tuple) and val and val[0] in ("idx", "idxafter", "posconst"):
                 posviews[pname] = val
                 del bound[pname]
+            elif isinstance(val, tuple) and val and val[0] == "boolconst":
+                bools[pname] = val[1]
+                del bound[pname]
+        # boolean switches the caller leaves alone take their defaults
+        for pname in params:
+            d0 = defaults.get(pname)
+            if pname not in bound and pname not in bools and isinstance(d0, ast.Constant) and isinstance(d0.value, bool):
+                bools[pname] = d0.value
         for pname in params:
             d0 = defaults.get(pname)
             if pname not in bound and pname not in posviews and isinstance(d0, ast.Constant) and isinstance(d0.value, int) and not isinstance(d0.value, bool):
@@ -239,12 +248,12 @@ class StrLang:
         # a parameter with a string default that the call does not bind: the language decided is that of the call
         # the property speaks about, where the default applies (is_w3c_curie(s) with sep=":")
         str_defaults = {}
-        if len([p for p in params if p not in bound and p not in posviews]) > 1:
+        if len([p for p in params if p not in bound and p not in posviews and p not in bools]) > 1:
             for pname in params:
                 d0 = defaults.get(pname)
                 if pname not in bound and pname not in posviews and isinstance(d0, ast.Constant) and isinstance(d0.value, str):
                     str_defaults[pname] = d0.value
-        free = [p for p in params if p not in bound and p not in posviews and p not in str_defaults]
+        free = [p for p in params if p not in bound and p not in posviews and p not in str_defaults and p not in bools]
         if len(free) != 1:
             raise Unsupported(f"{fname} does not take exactly one string parameter")
         views = {free[0]: ("whole",)}
@@ -253,6 +262,8 @@ class StrLang:
             posviews = {k: ((v[0], v[1], ("whole",), free[0]) if v[0] in ("idx", "idxafter") else v) for k, v in posviews.items()}
         views.update(posviews)
         saved = (dict(self.regexes), dict(self.strings))
+        saved_bools = dict(getattr(self, "bools", {}))
+        self.bools = {**saved_bools, **bools}
         for pname, cname in bound.items():
             if cname in saved[0]:
                 self.regexes[pname] = saved[0][cname]
@@ -264,6 +275,7 @@ class StrLang:
             res, _ = self._block(node.body, self.L.SIGMA_STAR, views)
         finally:
             self.regexes, self.strings = saved
+            self.bools = saved_bools
         res = minimise(res)
         self.memo[key] = res
         return res
@@ -592,6 +604,8 @@ class StrLang:
         L = self.L
         if isinstance(e, ast.Constant):
             return L.SIGMA_STAR if e.value else L.EMPTY
+        if isinstance(e, ast.Name) and e.id not in views and e.id in getattr(self, "bools", {}):
+            return L.SIGMA_STAR if self.bools[e.id] else L.EMPTY  # a boolean switch with a known value
         if isinstance(e, ast.Name) and e.id not in views and isinstance(self.strings.get(e.id), str):
             return L.SIGMA_STAR if self.strings[e.id] else L.EMPTY  # a name bound to a string constant
         if isinstance(e, ast.Name) and e.id in views:
@@ -674,6 +688,10 @@ class StrLang:
                 return self._truth(e.args[0], views)
             if isinstance(f, ast.Name) and f.id in self.mod.functions and len(e.args) == 1 and not e.keywords:
                 return self.lift(self.lang_true(f.id), self._view_of(e.args[0], views))
+            if isinstance(f, ast.Name) and f.id in self.mod.functions and len(e.args) == 1 and e.keywords and all(k.arg is not None and isinstance(k.value, ast.Constant) and isinstance(k.value.value, bool) for k in e.keywords):
+                # a helper called with boolean switches: its language for exactly these switch values
+                consts = tuple((k.arg, ("boolconst", k.value.value)) for k in e.keywords)
+                return self.lift(self.lang_true(f.id, consts), self._view_of(e.args[0], views))
             if isinstance(f, ast.Name) and f.id in self.mod.functions and not e.keywords and len(e.args) >= 2:
                 # helper taking pattern constant(s) plus one string: bind the constants by name
                 callee = self.mod.functions[f.id].node
